@@ -469,6 +469,9 @@ func c05Search(c *core.Ctx, dir string, ops []dml.Op, depth int, label string) {
 }
 
 func c05Replay(c *core.Ctx, payload json.RawMessage) {
+	if c05ParallelReplay(c, payload) {
+		return
+	}
 	var p c05Payload
 	if err := json.Unmarshal(payload, &p); err != nil {
 		fmt.Println("bad payload:", err)
